@@ -349,6 +349,9 @@ class Check:
             if not ok and not any(v[0] == "obligation:" + n for v in self.violations):
                 self.add_violation("obligation:" + n, {"obligation": n, "detail": d[-4000:]}, no_input=True)
         lines = []
+        for fn in os.listdir(REPLAYS):
+            if fn.startswith(self.prop + "-"):
+                os.unlink(os.path.join(REPLAYS, fn))
         for i, (kind, replay, no_input) in enumerate(self.violations):
             path = os.path.join(REPLAYS, "%s-%s-%d-%d.json" % (self.prop, self.tier, self.seed, i))
             with open(path, "w", encoding="utf-8") as f:
